@@ -27,8 +27,8 @@ fn c29_new_exact() {
             kani::cover!(raw == 1, "min alignment accepted");
             assert!(is_pow2 && raw <= 65536, "C29.new accepts only powers of two <= 2^16");
             assert!(a.exponent <= 16, "C29.new exponent in range");
-            assert!(a.value() == raw, "C29.new value round trip");
-            assert!(a.mask() == raw - 1, "C29.mask is value-1");
+            assert!(a.value() as u64 == raw, "C29.new value round trip");
+            assert!(a.mask() as u64 == raw - 1, "C29.mask is value-1");
         }
         Err(e) => {
             kani::cover!(raw == 131072, "2^17 rejected");
@@ -45,7 +45,7 @@ fn c29_align_down_exact() {
     let a = any_alignment();
     let v: u64 = kani::any();
     let m = 1u128 << a.exponent;
-    let d = a.align_down(v);
+    let d = a.align_down(v) as u64;
     kani::cover!(d != v && a.exponent == 16, "rounding happened at max alignment");
     kani::cover!(v == u64::MAX, "top of range");
     assert!(d <= v, "C29.align_down <= v");
@@ -62,7 +62,7 @@ fn c29_align_up_exact() {
     let m = 1u128 << a.exponent;
     let want = ((v as u128) + m - 1) / m * m;
     kani::assume(want <= u64::MAX as u128);
-    let u = a.align_up(v);
+    let u = a.align_up(v) as u64;
     kani::cover!(u != v && a.exponent == 16, "rounded up at max alignment");
     kani::cover!(u == v && v != 0 && a.exponent > 0, "already aligned");
     assert!(u >= v, "C29.align_up >= v");
@@ -86,7 +86,7 @@ fn c29_align_modulo_exact() {
     // Reference: up is a multiple of m, so the smallest x >= up with x % m == r % m is up + r % m.
     let want = up + (r as u128) % m;
     kani::assume(want <= u64::MAX as u128);
-    let x = a.align_modulo(r, o);
+    let x = a.align_modulo(r, o) as u64;
     kani::cover!(x != o && (r as u128) % m != 0, "adjusted to non-zero residue");
     kani::cover!(x == o && o != 0, "already congruent");
     assert!((x as u128) % m == (r as u128) % m, "C29.align_modulo congruent to ref_offset");
